@@ -270,19 +270,26 @@ theorem dv_eq_unfiltered (w : Rat) (l : List Rat) (hl : ∀ x ∈ l, 0 ≤ x) :
 
 /-! ### `count_top_weighted_strains` -/
 
-theorem sumOpt_map_bounds (f : Rat → Option Rat) (c : Rat) : ∀ l : List Rat,
+theorem sumOptL_map_bounds (f : Rat → Option Rat) (c : Rat) : ∀ (l : List Rat) (acc : Rat),
     (∀ s ∈ l, ∃ v, f s = some v ∧ 0 ≤ v ∧ v ≤ c) →
-    ∃ r, sumOpt (l.map f) = some r ∧ 0 ≤ r ∧ r ≤ c * (l.length : Rat) := by
+    ∃ r, sumOptL (· + ·) acc (l.map f) = some r ∧ acc ≤ r ∧ r ≤ acc + c * (l.length : Rat) := by
   intro l
   induction l with
-  | nil => intro _; exact ⟨0, rfl, le_refl _, by simp⟩
+  | nil => intro acc _; exact ⟨acc, rfl, le_refl _, by simp⟩
   | cons s ss ih =>
-    intro h
+    intro acc h
     obtain ⟨v, hv, hv0, hvc⟩ := h s (List.mem_cons_self)
-    obtain ⟨r, hr, hr0, hrc⟩ := ih (fun x hx => h x (List.mem_cons_of_mem _ hx))
-    refine ⟨v + r, ?_, by linarith, ?_⟩
-    · simp only [List.map_cons, hv, sumOpt, hr, Option.map_some]
+    obtain ⟨r, hr, hr0, hrc⟩ := ih (acc + v) (fun x hx => h x (List.mem_cons_of_mem _ hx))
+    refine ⟨r, ?_, by linarith, ?_⟩
+    · simp only [List.map_cons, hv, sumOptL]; exact hr
     · simp only [List.length_cons]; push_cast; linarith
+
+theorem countTop_unfold (ex : Rat → Rat) (strains : List Rat) (dv : Rat) :
+    countTopWeightedStrains ex strains dv =
+      if strains.isEmpty then some 0
+      else if floatEq (dv / 10) 0 then some (strains.length : Rat)
+      else sumOptL (· + ·) 0 (strains.map fun s =>
+        (cdiv s (dv / 10)).bind fun r => cdiv (11 / 10) (1 + ex (-10 * (r - 22 / 25)))) := rfl
 
 theorem floatEq_false_ne_zero {c : Rat} (h : floatEq c 0 = false) : c ≠ 0 := by
   intro h0
